@@ -49,6 +49,15 @@ Model/Boot.vos Model/Boot.vok Model/Boot.required_vos: Model/Boot.v Model/Term.v
 Model/OpTable.vo Model/OpTable.glob Model/OpTable.v.beautified Model/OpTable.required_vo: Model/OpTable.v 
 Model/OpTable.vio: Model/OpTable.v 
 Model/OpTable.vos Model/OpTable.vok Model/OpTable.required_vos: Model/OpTable.v 
+Model/Scan.vo Model/Scan.glob Model/Scan.v.beautified Model/Scan.required_vo: Model/Scan.v 
+Model/Scan.vio: Model/Scan.v 
+Model/Scan.vos Model/Scan.vok Model/Scan.required_vos: Model/Scan.v 
+Gen/Scan_gen.vo Gen/Scan_gen.glob Gen/Scan_gen.v.beautified Gen/Scan_gen.required_vo: Gen/Scan_gen.v Model/Scan.vo
+Gen/Scan_gen.vio: Gen/Scan_gen.v Model/Scan.vio
+Gen/Scan_gen.vos Gen/Scan_gen.vok Gen/Scan_gen.required_vos: Gen/Scan_gen.v Model/Scan.vos
+Model/ScanCheck.vo Model/ScanCheck.glob Model/ScanCheck.v.beautified Model/ScanCheck.required_vo: Model/ScanCheck.v Model/Scan.vo Gen/Scan_gen.vo
+Model/ScanCheck.vio: Model/ScanCheck.v Model/Scan.vio Gen/Scan_gen.vio
+Model/ScanCheck.vos Model/ScanCheck.vok Model/ScanCheck.required_vos: Model/ScanCheck.v Model/Scan.vos Gen/Scan_gen.vos
 Model/Solutions.vo Model/Solutions.glob Model/Solutions.v.beautified Model/Solutions.required_vo: Model/Solutions.v 
 Model/Solutions.vio: Model/Solutions.v 
 Model/Solutions.vos Model/Solutions.vok Model/Solutions.required_vos: Model/Solutions.v 
@@ -130,3 +139,9 @@ Proofs/Solutions.vos Proofs/Solutions.vok Proofs/Solutions.required_vos: Proofs/
 Props/C12.vo Props/C12.glob Props/C12.v.beautified Props/C12.required_vo: Props/C12.v Model/Solutions.vo Proofs/Solutions.vo
 Props/C12.vio: Props/C12.v Model/Solutions.vio Proofs/Solutions.vio
 Props/C12.vos Props/C12.vok Props/C12.required_vos: Props/C12.v Model/Solutions.vos Proofs/Solutions.vos
+Proofs/Scan.vo Proofs/Scan.glob Proofs/Scan.v.beautified Proofs/Scan.required_vo: Proofs/Scan.v Model/Scan.vo Gen/Scan_gen.vo
+Proofs/Scan.vio: Proofs/Scan.v Model/Scan.vio Gen/Scan_gen.vio
+Proofs/Scan.vos Proofs/Scan.vok Proofs/Scan.required_vos: Proofs/Scan.v Model/Scan.vos Gen/Scan_gen.vos
+Props/C15.vo Props/C15.glob Props/C15.v.beautified Props/C15.required_vo: Props/C15.v Model/Scan.vo Gen/Scan_gen.vo Proofs/Scan.vo
+Props/C15.vio: Props/C15.v Model/Scan.vio Gen/Scan_gen.vio Proofs/Scan.vio
+Props/C15.vos Props/C15.vok Props/C15.required_vos: Props/C15.v Model/Scan.vos Gen/Scan_gen.vos Proofs/Scan.vos
